@@ -170,6 +170,24 @@ class Explorer:
 
 
 BUILTIN_EXC = set(ExcType.HIER)
+_GEN_CACHE = {}
+
+
+def _is_generator(fn_node):
+    k = id(fn_node)
+    if k not in _GEN_CACHE:
+        found = False
+        stack = list(fn_node.body)
+        while stack and not found:
+            n = stack.pop()
+            if isinstance(n, (ast.Yield, ast.YieldFrom)):
+                found = True
+            elif isinstance(n, (ast.FunctionDef, ast.Lambda, ast.ClassDef)):
+                continue
+            else:
+                stack.extend(ast.iter_child_nodes(n))
+        _GEN_CACHE[k] = found
+    return _GEN_CACHE[k]
 
 
 class Interp:
@@ -235,6 +253,8 @@ class Interp:
             return len(v) > 0
         if isinstance(v, Arr):
             raise Unsupported("truth value of an array")
+        if isinstance(v, T.XR):
+            raise Unsupported("truth value of a possibly-NaN number")
         return True
 
     # ------------------------------------------------------------------ names
@@ -439,7 +459,7 @@ class Interp:
             try:
                 a = self.ev(node.body, st)
                 b = self.ev(node.orelse, st)
-                if (T.is_num(a) or T.is_boolish(a)) and (T.is_num(b) or T.is_boolish(b)) and len(st.pc) == snap_pc:
+                if T.is_val(a) and T.is_val(b) and len(st.pc) == snap_pc:
                     return T.ite(c, a, b)
             except Unsupported:
                 pass
@@ -472,7 +492,7 @@ class Interp:
             if is_sym(v) and z3.is_bool(v):
                 return z3.Not(v)
             return not self.truth(st, v)
-        if isinstance(v, Arr):
+        if isinstance(v, (Arr, self.lib.MaskedSel)):
             if isinstance(node.op, ast.USub):
                 return self.lib.ew(st, T.neg, v)
             if isinstance(node.op, ast.Invert):
@@ -481,7 +501,7 @@ class Interp:
         if isinstance(v, Obj):
             name = {"USub": "__neg__", "Invert": "__invert__", "UAdd": "__pos__"}[type(node.op).__name__]
             return self.call_method(st, v, name, [], {})
-        if isinstance(node.op, ast.USub):
+        if isinstance(node.op, ast.USub) and T.is_val(v):
             return T.neg(v)
         if isinstance(node.op, ast.UAdd):
             return v
@@ -507,14 +527,17 @@ class Interp:
             if isinstance(a, Obj):
                 return self.call_method(st, a, f"__{self.DUNDER[opname]}__", [b], {})
             return self.call_method(st, b, f"__r{self.DUNDER[opname]}__", [a], {})
+        arrish = (Arr, self.lib.MaskedSel)
         if opname in ("BitAnd", "BitOr"):
             f = T.land if opname == "BitAnd" else T.lor
-            if isinstance(a, Arr) or isinstance(b, Arr):
+            if isinstance(a, arrish) or isinstance(b, arrish):
                 return self.lib.ew(st, f, a, b, sort="bool")
             if T.is_boolish(a) and T.is_boolish(b):
                 return f(a, b)
             raise Unsupported("bitwise operator on numbers")
-        if isinstance(a, (Arr, self.lib.MaskedSel)) or isinstance(b, (Arr, self.lib.MaskedSel)):
+        if isinstance(a, arrish) or isinstance(b, arrish):
+            if opname not in self.BINOPS:
+                raise Unsupported(f"operator {opname} on arrays")
             return self.lib.ew(st, self.BINOPS[opname], a, b)
         if isinstance(a, str) and isinstance(b, str) and opname == "Add":
             return a + b
@@ -526,7 +549,7 @@ class Interp:
             return a * b if isinstance(a, tuple) else st.alloc(list(a) * b)
         if opname not in self.BINOPS:
             raise Unsupported(f"operator {opname}")
-        if not (T.is_num(a) or T.is_boolish(a)) or not (T.is_num(b) or T.is_boolish(b)):
+        if not T.is_val(a) or not T.is_val(b):
             r = self.lib.special_binop(self, st, opname, a, b)
             if r is not NotImplemented:
                 return r
@@ -556,13 +579,13 @@ class Interp:
             r = self.contains(st, b, a)
             return r if opn == "In" else T.lnot(r)
         op = self.CMPS[opn]
-        if isinstance(a, Arr) or isinstance(b, Arr):
+        if isinstance(a, (Arr, self.lib.MaskedSel)) or isinstance(b, (Arr, self.lib.MaskedSel)):
             return self.lib.ew(st, lambda x, y: T.cmp(op, x, y), a, b, sort="bool")
         if isinstance(a, Obj) or isinstance(b, Obj):
             r = self.lib.obj_compare(self, st, op, a, b)
             if r is not NotImplemented:
                 return r
-        if (T.is_num(a) or T.is_boolish(a)) and (T.is_num(b) or T.is_boolish(b)):
+        if T.is_val(a) and T.is_val(b):
             return T.cmp(op, a, b)
         if a is None or b is None:
             if op == "==":
@@ -686,6 +709,8 @@ class Interp:
         idx = st.deref(idx) if isinstance(idx, Ref) and isinstance(st.deref(idx), Arr) else idx
         if isinstance(o, Arr):
             return self.lib.arr_getitem(self, st, o, idx)
+        if isinstance(o, self.lib.MaskedSel):
+            return self.lib.sel_getitem(self, st, o, idx)
         if isinstance(o, dict):
             k = st.deref(idx)
             if k not in o:
@@ -754,6 +779,25 @@ class Interp:
 
     def ev_Starred(self, node, st):
         raise Unsupported("starred expression")
+
+    # ---- generators: the body is run to completion at the call and the yielded values are returned as a
+    # list.  Same values in the same order as lazy evaluation provided generator and consumer do not
+    # interfere (the generator reads nothing the consuming loop writes, and has no effects of its own);
+    # every generator function used this way is listed in the run's library/assumption list.
+    def ev_Yield(self, node, st):
+        sink = st.ghost.get("__yield_sink__")
+        if sink is None:
+            raise Unsupported("yield outside a generator call")
+        v = self.ev(node.value, st) if node.value is not None else None
+        st.deref(sink).append(v)
+        return None
+
+    def ev_YieldFrom(self, node, st):
+        sink = st.ghost.get("__yield_sink__")
+        if sink is None:
+            raise Unsupported("yield from outside a generator call")
+        st.deref(sink).extend(self.iterate(st, self.ev(node.value, st)))
+        return None
 
     # ------------------------------------------------------------------ iteration
     def iterate(self, st, v):
@@ -909,14 +953,22 @@ class Interp:
             if e.module is None:
                 e.module = fv.module
         self.depth += 1
+        is_gen = _is_generator(fv.node)
+        if is_gen:
+            self.lib.USED.add(f"generator evaluated eagerly: {fv.qualname}")
+            prev_sink = st.ghost.get("__yield_sink__")
+            sink = st.alloc([], "generator")
+            st.ghost["__yield_sink__"] = sink
         try:
             self.exec_block(fv.node.body, st)
-            return None
+            return sink if is_gen else None
         except ReturnSig as r:
-            return r.value
+            return sink if is_gen else r.value
         finally:
             self.depth -= 1
             st.env = old
+            if is_gen:
+                st.ghost["__yield_sink__"] = prev_sink
 
     # ------------------------------------------------------------------ statements
     def exec_block(self, body, st):
@@ -1160,6 +1212,11 @@ class Interp:
             if self.ctx:
                 self.ctx.note_write(obj)
             return
+        if isinstance(o, self.lib.MaskedSel):
+            if not isinstance(obj, Ref):
+                raise Unsupported("store into a temporary selection")
+            st.heap[obj.id] = self.lib.sel_setitem(self, st, o, idx, v)
+            return
         if isinstance(o, dict):
             k = st.deref(idx)
             if is_sym(k):
@@ -1222,6 +1279,8 @@ class Interp:
             return summarise_for(self, node, st, itv.lo, itv.hi)
         if man is not None and isinstance(itv, self.lib.RangeVal):
             return self.loop_invariant(node, st, man, itv.lo, itv.hi)
+        if isinstance(itv, self.lib.EnumVal):
+            return self.for_enumerate(node, st, itv, man)
         items = self.iterate(st, itv)
         self.stats["loops_unrolled"] += 1
         broke = False
@@ -1236,6 +1295,29 @@ class Interp:
                 continue
         if not broke:
             self.exec_block(node.orelse, st)
+
+    def for_enumerate(self, node, st, ev, man):
+        """`for i, x in enumerate(a)` with len(a) symbolic  ==  `for i in range(len(a)): x = a[i]; ...`"""
+        t = node.target
+        if not (isinstance(t, (ast.Tuple, ast.List)) and len(t.elts) == 2 and all(isinstance(e, ast.Name) for e in t.elts)):
+            raise Unsupported("enumerate over a symbolic-length array needs a `for i, x in` target")
+        if man is not None:
+            raise Unsupported("loop invariant on an enumerate loop")
+        hidden = f"__enum_src_{id(node)}"
+        st.env.vars[hidden] = ev.src
+        first = ast.Assign(targets=[ast.Name(id=t.elts[1].id, ctx=ast.Store())],
+                           value=ast.Subscript(value=ast.Name(id=hidden, ctx=ast.Load()),
+                                               slice=ast.Name(id=t.elts[0].id, ctx=ast.Load()), ctx=ast.Load()))
+        synth = ast.For(target=ast.Name(id=t.elts[0].id, ctx=ast.Store()), iter=node.iter,
+                        body=[first] + list(node.body), orelse=list(node.orelse), type_comment=None)
+        ast.copy_location(first, node)
+        ast.copy_location(synth, node)
+        ast.fix_missing_locations(synth)
+        from .loops import summarise_for
+        try:
+            return summarise_for(self, synth, st, 0, st.deref(ev.src).shape[0])
+        finally:
+            st.env.vars.pop(hidden, None)
 
     def loop_invariant(self, node, st, man, lo, hi):
         from .loops import invariant_loop
